@@ -141,7 +141,11 @@ def replay_plan(ob):
     operands = []
     if tgt.startswith('milu-views '):
         for k, cls in enumerate(tgt.split(' ', 1)[1].split('/')[1].split('+')):
-            o = lit('arg%d' % k) if cls in ('lit', 'bound') else {'elems': [lit('arg%d_e%d' % (k, e)) for e in range(2)]}
+            if cls == 'shadowed':
+                o = lit('arg%d' % k)
+                o['shadow'] = lit('arg%d_shadow' % k)
+            else:
+                o = lit('arg%d' % k) if cls in ('lit', 'bound') else {'elems': [lit('arg%d_e%d' % (k, e)) for e in range(2)]}
             o['class'] = cls
             operands.append(o)
     else:
@@ -153,6 +157,18 @@ def replay_plan(ob):
     if ob.target.startswith('milu-arity '):
         drv = 'script_ext' if name in EXT_FUNCS else 'milu_stdlib'
         return drv, case, lambda o: bool(o.get('sig_panicked'))
+    if ob.label.startswith('C08/') and 'promised-scalar-result' in ob.label:
+        return 'milu_stdlib', case, lambda o: o.get('sig_ok') and o.get('call_ok') and o.get('sig') in ('integer', 'boolean', 'string') and o.get('value_type') == 'other'
+    if ob.label.startswith('C08/IsMemberOf/true-iff'):
+        def same(a, b):
+            if a['kind'] != b['kind']:
+                return False
+            return {0: a['int'] == b['int'], 1: a['bool'] == b['bool']}.get(a['kind'], a['str'] == b['str'])
+        try:
+            expect = any(same(operands[0], e) for e in operands[1]['elems'])
+        except Exception:
+            return None
+        return 'milu_stdlib', case, lambda o: o.get('sig_ok') and o.get('call_ok') and o.get('value_bool') is not None and o.get('value_bool') != expect
     if ob.label.startswith('C08/') and 'never-fail-at-evaluation' in ob.label:
         return 'milu_stdlib', case, lambda o: o.get('sig_ok') and o.get('call_ok') is False
     if ob.label.startswith('C08/') and 'result-has-the-type' in ob.label:
@@ -167,29 +183,58 @@ def replay_plan(ob):
 # `call` look at matching views.  Here the real four functions, the real ScopeBinding and the real Vec<Value> Indexable are
 # executed; only ScriptContext::lookup (a HashMap probe) is replaced by the table of bindings the spec set up.
 
-CLASSES = ('lit', 'bound', 'array', 'bound_array')
+CLASSES = ('lit', 'bound', 'array', 'bound_array', 'shadowed', 'array_bound')
 
 
 def _mk_operand(ex, st, cls, hint, bindings, parts):
     vn = ex.si.enums['Value']
+    lits = bindings.setdefault('__lits__', {})
 
-    def lit(h):
+    def lit(h, kind=None):
         v, d, i, b, s = sym_value(ex, st, h)
+        if kind is not None:
+            ex.assume(st, d == BV(V[kind], 64))
         parts.update({h + '_kind': d, h + '_int': i, h + '_bool': b, h + '_str': s})
+        lits[h] = (d, i, b, s)
         return v
+
+    def ident(nm):
+        return Agg('Value', {}, vn.index('Identifier'), {vn.index('Identifier'): {0: Bytes.from_py(nm.encode(), 'string')}}, vn)
+
+    def bind(scope, nm, value):
+        """what `let nm=value` stores: a ScopeBinding native object remembering the scope the let was written in"""
+        sb = Agg('ScopeBinding', {0: bindings['__outer_ctx__'], 1: value})
+        boxed = Ref(st.alloc(Ref(st.alloc(sb), ())), ())          # Arc<Box<dyn NativeObject>>
+        bindings[(scope, nm)] = Agg('Value', {}, vn.index('NativeObject'), {vn.index('NativeObject'): {0: boxed}}, vn)
+    if cls == 'shadowed':
+        # `let t=<integer> in let t=<anything>; s=t+0 in <op>(s, ..)`: s is an expression over the name t, written in the scope
+        # outside the inner let; the inner let shadows t with a value of an unrelated type.  Checker and evaluator must both
+        # resolve t where s was defined.
+        tname, sname = 't_' + hint, 'v_' + hint
+        bind('outer', tname, lit(hint, 'Integer'))
+        bind('inner', tname, lit(hint + '_shadow'))
+        plus = Ref(st.alloc(Ref(st.alloc(Agg('Plus', {0: Bytes.from_py(b'Plus', 'string')})), ())), ())
+        zero = Agg('Value', {}, vn.index('Integer'), {vn.index('Integer'): {0: Int(BV(0, 64), 64, True)}}, vn)
+        call = Agg('Call', {0: Agg('Value', {}, vn.index('NativeObject'), {vn.index('NativeObject'): {0: plus}}, vn),
+                            1: SeqV.from_items([ident(tname), zero], 'Value', 'vec')})
+        expr = Agg('Value', {}, vn.index('OpCall'), {vn.index('OpCall'): {0: Ref(st.alloc(call), ())}}, vn)
+        bind('inner', sname, expr)
+        return ident(sname)
     if cls in ('lit', 'bound'):
         inner = lit(hint)
+    elif cls == 'array_bound':
+        # [x, <literal>] with x a let-bound name
+        e0 = lit('%s_e0' % hint)
+        bind('inner', 'v_%s_e0' % hint, e0)
+        elems = [ident('v_%s_e0' % hint), lit('%s_e1' % hint)]
+        return Agg('Value', {}, vn.index('Array'), {vn.index('Array'): {0: Ref(st.alloc(SeqV.from_items(elems, 'Value', 'vec')), ())}}, vn)
     else:
-        n = 2
-        elems = [lit('%s_e%d' % (hint, k)) for k in range(n)]
+        elems = [lit('%s_e%d' % (hint, k)) for k in range(2)]
         inner = Agg('Value', {}, vn.index('Array'), {vn.index('Array'): {0: Ref(st.alloc(SeqV.from_items(elems, 'Value', 'vec')), ())}}, vn)
     if cls in ('lit', 'array'):
         return inner
-    name = 'v_' + hint
-    sb = Agg('ScopeBinding', {0: Ref(st.alloc(Opaque('ScriptContext', 'outer')), ()), 1: inner})
-    boxed = Ref(st.alloc(Ref(st.alloc(sb), ())), ())          # Arc<Box<dyn NativeObject>>
-    bindings[name] = Agg('Value', {}, vn.index('NativeObject'), {vn.index('NativeObject'): {0: boxed}}, vn)
-    return Agg('Value', {}, vn.index('Identifier'), {vn.index('Identifier'): {0: Bytes.from_py(name.encode(), 'string')}}, vn)
+    bind('inner', 'v_' + hint, inner)
+    return ident('v_' + hint)
 
 
 def spec_operator_views(ck, db, name, fns, classes, in_range=False):
@@ -204,6 +249,9 @@ def spec_operator_views(ck, db, name, fns, classes, in_range=False):
     ex.iter_bound = 4
     st = State()
     bindings, parts, vals = {}, {}, []
+    outer_cell = st.alloc(Opaque('ScriptContext', 'outer'))
+    inner_cell = st.alloc(Opaque('ScriptContext', 'ctx'))
+    bindings['__outer_ctx__'] = Ref(outer_cell, ())
     for k, cls in enumerate(classes):
         vals.append(_mk_operand(ex, st, cls, 'arg%d' % k, bindings, parts))
     ex.inputs = parts
@@ -218,12 +266,20 @@ def spec_operator_views(ck, db, name, fns, classes, in_range=False):
             nm = bytes(concrete(x) for x in b.conc).decode()
         except Exception:
             return NotImplemented
-        if nm in bindings:
-            return C.mk_result(ctx.ex, ok=bindings[nm])
+        me_ = ctx.args[0]
+        seen = 0
+        while isinstance(me_, Ref) and me_.cell not in (outer_cell, inner_cell) and seen < 4:
+            me_ = ctx.ex.load(ctx.st, me_.cell, me_.path)
+            seen += 1
+        which = 'outer' if isinstance(me_, Ref) and me_.cell == outer_cell else 'inner'
+        # the inner scope's parent is the outer scope (ScriptContext::lookup walks up)
+        for scope in ((which, 'outer') if which == 'inner' else ('outer',)):
+            if (scope, nm) in bindings:
+                return C.mk_result(ctx.ex, ok=bindings[(scope, nm)])
         return C.mk_result(ctx.ex, err=Opaque('easy_error::Error', 'undefined'))
     ex.overrides.append((re.compile(r'ScriptContext::lookup$'), lookup))
     me = Ref(st.alloc(Opaque(name, 'self')), ())
-    ctxarg = Ref(st.alloc(Opaque('ScriptContext', 'ctx')), ())
+    ctxarg = Ref(inner_cell, ())
     tag = 'milu-views %s/%s%s' % (name, '+'.join(classes), '/in-range' if in_range else '')
     sig_outs = ex.call_fn(st, sig, [me, ctxarg, Ref(args_cell, ())])
     tn, vn = ex.si.enums['Type'], ex.si.enums['Value']
@@ -258,26 +314,42 @@ def spec_operator_views(ck, db, name, fns, classes, in_range=False):
             expd = BV(exp.discr, 64) if isinstance(exp.discr, int) else exp.discr
             ex.prove(o, 'C08/%s/result-has-the-type-the-checker-promised' % name,
                      z3.Implies(z3.And(okC, scalar), z3.Or(td == expd, td == BV(tn.index('Any'), 64))))
+            # a promised scalar type is a promise of a scalar VALUE (an unresolved native object cannot be cast by whoever uses it)
+            tscalar = z3.Or([td == BV(tn.index(x), 64) for x in ('Integer', 'Boolean', 'String')])
+            ex.prove(o, 'C08/%s/promised-scalar-result-is-a-scalar-value' % name, z3.Implies(z3.And(okC, tscalar), scalar))
+            if name == 'IsMemberOf' and classes[0] in ('lit', 'bound') and classes[1] in ('array', 'array_bound', 'bound_array'):
+                lits = bindings['__lits__']
+                a = lits['arg0']
+                member = z3.BoolVal(False)
+                for k in range(2):
+                    e = lits['arg1_e%d' % k]
+                    same = z3.And(a[0] == e[0], z3.If(a[0] == BV(V['Integer'], 64), a[1].t == e[1].t,
+                                                      z3.If(a[0] == BV(V['Boolean'], 64), a[2].t == e[2].t, C.bytes_equal(ex, o, a[3], e[3]))))
+                    member = z3.Or(member, same)
+                rb = val.variants.get(vn.index('Boolean'), {}).get(0)
+                if isinstance(rb, Bool):
+                    ex.prove(o, 'C08/IsMemberOf/true-iff-the-subject-equals-some-element', z3.Implies(z3.And(okC, vd == BV(vn.index('Boolean'), 64)), rb.t == member))
     ck.absorb(ex, tag, all_finals)
 
 
 VIEW_DYNAMIC = {'Index'}          # index out of range is one of the property's allowed dynamic errors
-VIEW_OPS = {'Index': [('array', 'lit'), ('bound_array', 'lit'), ('array', 'bound'), ('bound_array', 'bound'), ('lit', 'lit'), ('bound', 'lit')]}
+VIEW_OPS = {'Index': [('array', 'lit'), ('bound_array', 'lit'), ('array', 'bound'), ('bound_array', 'bound'), ('lit', 'lit'), ('bound', 'lit'), ('array_bound', 'lit')],
+            'IsMemberOf': [('lit', 'array'), ('bound', 'array'), ('lit', 'array_bound'), ('bound', 'array_bound'), ('lit', 'bound_array'), ('lit', 'lit')]}
 
 
 def spec_views(ck, db, thorough=False):
     ops = operators(db)
     done = []
     for name in sorted(ops):
-        if name in ('Scope', 'Test', 'Access', 'Like', 'NotLike', 'Split', 'StringConcat', 'IsMemberOf', 'If'):
+        if name in ('Scope', 'Test', 'Access', 'Like', 'NotLike', 'Split', 'StringConcat', 'If'):
             continue
         n = ARITY.get(name, 2)
         if name in VIEW_OPS:
             combos = VIEW_OPS[name]
         elif n == 1:
-            combos = [('bound',)] + ([('array',), ('bound_array',)] if thorough else [])
+            combos = [('bound',), ('shadowed',)] + ([('array',), ('bound_array',)] if thorough else [])
         else:
-            combos = [('bound', 'lit'), ('lit', 'bound'), ('bound', 'bound')]
+            combos = [('bound', 'lit'), ('lit', 'bound'), ('bound', 'bound'), ('shadowed', 'lit'), ('lit', 'shadowed')]
             if thorough:
                 combos += [(a, b) for a in CLASSES for b in CLASSES if (a, b) not in combos and (a, b) != ('lit', 'lit')]
         for c in combos:
